@@ -1,4 +1,5 @@
 import GV.Props.C01
+import GV.Props.C02
 import GV.Props.C12
 import GV.Props.C15
 import GV.Props.C16
